@@ -535,8 +535,16 @@ func soup(r *Rng) []byte {
 	if r.Chance(0.2) {
 		tok := r.Pick([]string{"`", "*", "_", "~", "[", "]", "(", ")", "<", ">", "#", "=", "-", "+", "\\", "&", "!", " ", "\t", "a", "1", ">", "> ", "- ", "\u00e9"})
 		n := runLengths[r.Intn(len(runLengths))]
-		sb.WriteString(r.Pick([]string{"", "", "x ", "> ", "- ", "[a]: "}))
+		// ... optionally inside a construct with a length-limited or
+		// fixed-buffer part: tag / attribute names, entity names and numbers,
+		// labels (999), destinations, autolinks, e-mail local parts
+		pre := r.Pick([]string{"", "", "x ", "> ", "- ", "[a]: ", "<", "</", "<x-", "<a ", "<a b=\"", "&", "&#", "&#x", "[", "![", "[x](", "[x][", "`", "http://", "<http://", "<", "[a]: /u '"})
+		if r.Chance(0.5) {
+			tok = r.Pick([]string{"a", "A", "1", "f", "-", "a.", "\u00e9"})
+		}
+		sb.WriteString(pre)
 		sb.WriteString(strings.Repeat(tok, n))
+		sb.WriteString(r.Pick([]string{"", "", ">", " >", "/>", ";", "]", ")", "\"", "'", "`", "@b.c>", ".com>", "]: /u", "=c>"}))
 		switch r.Intn(5) {
 		case 0:
 			sb.WriteString(" y " + strings.Repeat(tok, n))
